@@ -33,6 +33,32 @@ def split(workdir) -> str:
     return str(d)
 
 
+def split_stdlib(workdir, quick: bool) -> list[str]:
+    """Copies of pure-Python standard library modules with a driver function appended
+    (harness/sut/stdlib_drivers.py); returns the names of the driver functions."""
+    import sysconfig  # noqa: PLC0415
+
+    if SUT_DIR not in sys.path:
+        sys.path.insert(0, SUT_DIR)
+    import stdlib_drivers  # noqa: PLC0415
+
+    lib = Path(sysconfig.get_paths()["stdlib"])
+    d = Path(workdir)
+    d.mkdir(parents=True, exist_ok=True)
+    names = []
+    for mod in (stdlib_drivers.QUICK if quick else sorted(stdlib_drivers.DRIVERS)):
+        src = lib / f"{mod}.py"
+        if not src.exists():
+            continue
+        exprs = stdlib_drivers.DRIVERS[mod]
+        name = f"stdlib_{mod.lstrip('_')}"
+        driver = (f"\n\ndef {name}(x, log):\n    _exprs = {exprs!r}\n"
+                  f"    return eval(_exprs[{INPUTS!r}.index(x) % len(_exprs)])\n")
+        (d / f"idm_{name}.py").write_text(src.read_text() + driver)
+        names.append(name)
+    return names
+
+
 def _observe(fn, x):
     log: list = []
     try:
